@@ -384,3 +384,32 @@ def generic_next(m, st, fr, callee, args):
     v = it.items[it.pos]
     it.pos += 1
     return Enum("Some", [v], "Option")
+
+
+@M.add(r"<<T as IntoIterator>::IntoIter as Iterator>::collect::<([A-Za-z0-9_:]+)>|<T as Iterator>::collect::<([A-Za-z0-9_:]+)>")
+def generic_collect(m, st, fr, callee, args):
+    """iterator.collect::<X>() = <X as FromIterator<Item>>::from_iter(iterator): run X's from_iter from the MIR on the iterator"""
+    it = args[0]
+    if not isinstance(it, ListIter):
+        raise Unsupported("collect of %r" % (it,))
+    mm = re.search(r"collect::<([A-Za-z0-9_:]+)>", callee)
+    ty = mm.group(1).rsplit("::", 1)[-1]
+    want_ref = any(isinstance(x, Ref) for x in it.items[it.pos:])
+    cands = []
+    for name, f in m.funcs.items():
+        if f.name.endswith("::from_iter") and m._base_type(f.ret) == ty:
+            is_ref = any(re.search(r"Option<&", t) for t in f.locals.values())
+            if is_ref == want_ref or it.pos >= len(it.items):
+                cands.append(f)
+    if not cands:
+        raise Unsupported("no from_iter for %s" % ty)
+    base = len(st.pc)
+    sub = m.run(m.start(cands[0], [it], list(st.pc)))
+    if len(sub) == 1 and sub[0].kind == "return":
+        return sub[0].value
+    alts = []
+    for o in sub:
+        extra = [to_bool(c) for c in o.pc[base:] if c is not True]
+        cond = z3.And(*extra) if extra else z3.BoolVal(True)
+        alts.append((cond, o.value if o.kind == "return" else ("panic", "collect: %s" % o.msg)))
+    return ("fork", alts)
